@@ -266,6 +266,9 @@ PROPS["C07"] = {
     "units": [
         {"name": "C07", "pkg": "server", "test": "TestVerifC07",
          "quick": {"shards": 8, "checks": 60}, "thorough": {"shards": 16, "checks": 2000, "timeout": 3000}},
+        # bounded-exhaustive: every sequence of <= LEN operations over a 12-letter alphabet on a 3-replica partition
+        {"name": "C07exh", "pkg": "server", "test": "TestVerifC07Exh", "kind": "exhaustive",
+         "quick": {"shards": 16, "params": {"LEN": 4}}, "thorough": {"shards": 16, "params": {"LEN": 5}, "timeout": 3000}},
     ],
 }
 
